@@ -25,7 +25,7 @@ PLAN = {"quick": {"cases": 1200, "jobs": 4, "timeout": 600},
         "thorough": {"cases": 500000, "jobs": 16, "timeout": 3000, "budget_s": 360}}
 FLOORS = {"quick": {"c13.notes_position_checked": 3000, "c13.signature_position_checked": 500, "c13.long_track": 50,
                     "c13.omitted_track": 150, "c13.merged_group": 200, "c13.non_dyadic_resolution": 250, "c13.union_groups_checked": 150,
-                    "c13.note_collapsing_to_zero_length": 300},
+                    "c13.note_collapsing_to_zero_length": 300, "c13.unrepresented_message_written": 1500},
           "thorough": {"c13.notes_position_checked": 150000}}
 TPB = [24, 48, 96, 100, 120, 192, 384, 480, 960, 7, 32767]
 KEYS_MIDO = ["C", "G", "D", "A", "E", "B", "F#", "C#", "F", "Bb", "Eb", "Ab", "Db", "Gb", "Cb", "Am", "Em", "Dm", "F#m", "Ebm"]
@@ -137,7 +137,17 @@ def make_case(rng, i, tier):
             evs.append([rng.randrange(0, max(1, span)), "cc", chan, 64, rng.randrange(0, 128)])
         if rng.random() < 0.2:
             evs.append([0, "pc", chan, rng.randrange(0, 128), 0])
-        order = {"off": 0, "ts": 1, "ks": 1, "cc": 1, "pc": 1, "on": 2}
+        if i % 3 == 1 and not long_run:
+            # messages the library has no representation for (pitch bend gestures, aftertouch ramps, sysex, tempo / text meta
+            # events): they are skipped, but the delta times they carry belong to the track's clock like any other
+            import random
+            r2 = random.Random(f"c13-foreign:{i}:{t}")
+            for _ in range(r2.randint(1, 3)):
+                T = r2.randrange(0, max(1, span))
+                for _k in range(r2.randint(2, 5)):
+                    evs.append([T, "x", chan, r2.choice(["pitchwheel", "aftertouch", "polytouch", "sysex", "set_tempo", "text"]), r2.randrange(0, 100)])
+                    T += r2.randint(1, max(2, int(unit * 3)))
+        order = {"off": 0, "ts": 1, "ks": 1, "cc": 1, "pc": 1, "x": 1, "on": 2}
         evs.sort(key=lambda e: (e[0], order[e[1]]))
         tracks.append(evs)
     idx = list(range(nt))
@@ -201,6 +211,21 @@ def run(case, ctx):
                 tr.append(mido.Message("control_change", channel=e[2], control=e[3], value=e[4], time=d))
             elif kind == "pc":
                 tr.append(mido.Message("program_change", channel=e[2], program=e[3], time=d))
+            elif kind == "x":
+                LOG.n("c13.unrepresented_message_written")
+                sub = e[3]
+                if sub == "pitchwheel":
+                    tr.append(mido.Message("pitchwheel", channel=e[2], pitch=e[4] * 50 - 2000, time=d))
+                elif sub == "aftertouch":
+                    tr.append(mido.Message("aftertouch", channel=e[2], value=e[4], time=d))
+                elif sub == "polytouch":
+                    tr.append(mido.Message("polytouch", channel=e[2], note=60, value=e[4], time=d))
+                elif sub == "sysex":
+                    tr.append(mido.Message("sysex", data=[1, 2, e[4]], time=d))
+                elif sub == "set_tempo":
+                    tr.append(mido.MetaMessage("set_tempo", tempo=400000 + e[4] * 1000, time=d))
+                else:
+                    tr.append(mido.MetaMessage("text", text="x%d" % e[4], time=d))
         f.tracks.append(tr)
     path = os.path.join(ctx.scratch, f"c13_{os.getpid()}.mid")
     f.save(path)
